@@ -244,3 +244,26 @@ Example C06_relisted_parameter_wins :
   emit_metadata (relisted_m [relisted_A; relisted_B; relisted_A]) <> emit_metadata (relisted_m [relisted_A; relisted_B]).
 Proof. exact relisted_parameter_wins_l. Qed.
 Print Assumptions C06_relisted_parameter_wins.
+
+(* ---- presence: an empty field contributes nothing whether it is unset or present with the empty string (proto3
+   optional). The header is a function of the attribute VALUES alone, and setting an unset attribute to the empty
+   string leaves it unchanged, for every method (explicit, implicit, none) and every request ---- *)
+Theorem C06_header_depends_on_values_only : forall (m : method) (r1 r2 : request),
+  (forall p, r1 p = r2 p) -> header_of m r1 = header_of m r2.
+Proof. exact header_ext_l. Qed.
+Print Assumptions C06_header_depends_on_values_only.
+
+Theorem C06_present_empty_is_unset : forall (m : method) (l : list (string * string)) (a : string),
+  assoc a l = None ->
+  header_of m (req_of ((a, EmptyString) :: l)) = header_of m (req_of l).
+Proof. exact header_presence_l. Qed.
+Print Assumptions C06_present_empty_is_unset.
+
+(* the hypothesis holds of a concrete request, and the parameter listed last with an empty optional field does not
+   override what the first one captured (the witness of corpus/C06/optional-routing-field.json) *)
+Example C06_ex_present_empty :
+  header_of presence_m (req_of [("routing_id", ""); ("name", "projects/p1/things/t1")]) = Ok (Some "routing_id=projects/p1") /\
+  header_of presence_m (req_of [("name", "projects/p1/things/t1")]) = Ok (Some "routing_id=projects/p1") /\
+  header_of presence_m (req_of [("routing_id", "r 1"); ("name", "projects/p1/things/t1")]) = Ok (Some "routing_id=r+1").
+Proof. exact presence_witness_l. Qed.
+Print Assumptions C06_ex_present_empty.
